@@ -312,6 +312,11 @@ def lamFits (w indent : Nat) (args : List LArg) (body : Expr) : Bool :=
 /-- `via` / `into` / `where` -/
 def chainOp (op : BinOp) : Bool := op == .via || op == .into || op == .where_
 
+/-- a do-block: `format_lambda` always keeps `do {` on the line of `=>` -/
+def isDoBlock : Expr → Bool
+  | .doBlock _ _ => true
+  | _ => false
+
 /-- the test of `condLayout`: `if c then` fits on the line -/
 def condHeadFits (w indent : Nat) (c : Expr) : Bool :=
   decide (indent + blen ("if " ++ fmtImpl w indent c ++ " then") ≤ w)
@@ -362,7 +367,8 @@ def fmtCST (w indent : Nat) : Expr → CST
   | .lambda args body =>
     if lambdaBodyNeedsParens body then
       .lambda (headF args) [.sp] [.sp] (.paren [] (fmtCST w indent body) [])
-    else if lamFits w indent args body then .lambda (headF args) [.sp] [.sp] (fmtCST w indent body)
+    else if isDoBlock body || lamFits w indent args body then
+      .lambda (headF args) [.sp] [.sp] (fmtCST w indent body)
     else .lambda (headF args) [.sp] (breakLay indent) (fmtCST w (indent + INDENT_SIZE) body)
   | .ident n => canon (.ident n)
   | .builtin n => canon (.builtin n)
@@ -373,6 +379,9 @@ def fmtCST (w indent : Nat) : Expr → CST
   | .record es =>
     if fits w indent (.record es) then canonF (.record es)
     else mkRecordML indent (fmtEntsCST w (indent + INDENT_SIZE) es)
+  | .doBlock ss (.mk _ e _) =>
+    .doB [.sp] (breakLay indent) (fmtStmtsCST w indent ss) [.sp] (fmtCST w (indent + INDENT_SIZE) e)
+      (nlLay indent)
   | e => canon e
 def fmtArgsCST (w inner : Nat) : List Expr → List (Bool × CST)
   | [] => []
@@ -380,6 +389,12 @@ def fmtArgsCST (w inner : Nat) : List Expr → List (Bool × CST)
 def fmtItemsCST (w inner : Nat) : List Item → List (Bool × CST)
   | [] => []
   | (.mk _ e _) :: rest => (isSpread e, fmtCST w inner e) :: fmtItemsCST w inner rest
+/-- `format_do_block_multiline`: every statement on its own line one level deeper, protected as
+    `protect_statement_start` does -/
+def fmtStmtsCST (w indent : Nat) : List Item → Stmts
+  | [] => .nil
+  | (.mk _ e _) :: rest =>
+    .cons (protC (fmtCST w (indent + INDENT_SIZE) e)) (.line (breakLay indent)) (fmtStmtsCST w indent rest)
 def fmtEntsCST (w inner : Nat) : List Entry → List Ent
   | [] => []
   | e :: rest => fmtEntCST w inner e :: fmtEntsCST w inner rest
@@ -474,8 +489,12 @@ theorem fragB_noComments : ∀ (sp : Bool) (t : Expr), fragB sp t = true → con
   | _, .record es, h => by
     simp only [fragB] at h
     simp [containsComments, fragEntries_noComments es h]
+  | _, .doBlock ss (.mk lead e tr), h => by
+    simp only [fragB, fragRet, Bool.and_eq_true] at h
+    simp [containsComments, itemContainsComments, fragStmts_noComments ss h.1,
+      fragB_noComments false e h.2.2]
   | _, .inref _, h
-  | _, .doBlock _ _, h | _, .assign _ _, h | _, .output _, h => by
+  | _, .assign _ _, h | _, .output _, h => by
     simp [fragB] at h
 theorem fragArgs_noComments : ∀ args : List Expr, fragArgs args = true →
     exprsContainComments args = false
@@ -491,6 +510,13 @@ theorem fragItems_noComments : ∀ items : List Item, fragItems items = true →
     obtain ⟨⟨⟨rfl, rfl⟩, he⟩, hr⟩ := h
     simp [itemsHaveComments, itemHasOrContains, fragB_noComments true e he,
       fragItems_noComments rest hr]
+theorem fragStmts_noComments : ∀ ss : List Item, fragStmts ss = true →
+    stmtsContainComments ss = false
+  | [], _ => rfl
+  | (.mk lead e tr) :: rest, h => by
+    simp only [fragStmts, Bool.and_eq_true] at h
+    simp [stmtsContainComments, itemContainsComments, fragB_noComments false e h.1.2.1,
+      fragStmts_noComments rest h.2]
 theorem fragEntries_noComments : ∀ es : List Entry, fragEntries es = true →
     entriesHaveComments es = false
   | [], _ => rfl
@@ -690,8 +716,15 @@ theorem canonF_text : ∀ (sp : Bool) (t : Expr), fragB sp t = true →
       mkRecord_text, ha, fmtSingle, hany, String.toList_append, String.toList_intercalate, commaSp,
       List.append_assoc]
     rfl
+  | sp, .doBlock ss r, h => by
+    have hs : fmtSingle (.doBlock ss r) = exprToSource (.doBlock ss r) := by
+      simp [fmtSingle, fragB_noComments sp _ h]
+    have hh : Frag (.doBlock ss r) := by
+      cases r; simpa [Frag, frag, fragB] using h
+    simp only [isSpread, spreadChars, Bool.false_eq_true, if_false, List.nil_append, canonF, hs]
+    exact canon_text_frag _ hh
   | _, .inref _, h
-  | _, .doBlock _ _, h | _, .assign _ _, h | _, .output _, h => by
+  | _, .assign _ _, h | _, .output _, h => by
     simp [fragB] at h
 theorem canonFArgs_text : ∀ args : List Expr, fragArgs args = true →
     (canonFArgs args).map argS = (fmtSingleList args).map String.toList
@@ -854,6 +887,12 @@ theorem fmtImplP_record (w indent : Nat) (es : List Entry) :
       else .text "{" :: (fmtEntriesP w (indent + INDENT_SIZE) es ++
         [.text ("\n" ++ makeIndent indent ++ "}")]) := by
   rw [fmtImplP]; rfl
+
+theorem fmtImplP_doBlock (w indent : Nat) (ss : List Item) (r : Item) :
+    fmtImplP w indent (.doBlock ss r) =
+      .text "do {" :: (fmtStmtsP w (indent + INDENT_SIZE) ss ++
+        (fmtRetP w (indent + INDENT_SIZE) r ++ [.text ("\n" ++ makeIndent indent ++ "}")])) := by
+  rw [fmtImplP]
 
 theorem fmtImplP_cond (w indent : Nat) (c t e : Expr) :
     fmtImplP w indent (.cond c t e) =
@@ -1021,8 +1060,11 @@ theorem fmtCST_normalize : ∀ (t : Expr) (w indent : Nat), (fmtCST w indent t).
     split
     · exact canonF_normalize _
     · simp only [mkRecordML_normalize, fmtEntsCST_normalize es w (indent + INDENT_SIZE), canon]
+  | .doBlock ss (.mk _ e _), w, indent => by
+    simp only [fmtCST, CST.normalize, fmtStmtsCST_normalize ss w indent,
+      fmtCST_normalize e w (indent + INDENT_SIZE), canon]
   | .inref _, _, _
-  | .doBlock _ _, _, _ | .assign _ _, _, _
+  | .assign _ _, _, _
   | .output _, _, _ => rfl
 theorem fmtChainCST_normalize : ∀ (t : Expr) (w indent : Nat) (x : CST),
     fmtChainCST w indent t = some x → x.normalize = canon t
@@ -1056,6 +1098,12 @@ theorem fmtItemsCST_normalize : ∀ (items : List Item) (w inner : Nat),
   | (.mk _ e _) :: rest, w, inner => by
     simp only [fmtItemsCST, canonItems, List.map_cons, normPair, fmtCST_normalize e w inner,
       fmtItemsCST_normalize rest w inner]
+theorem fmtStmtsCST_normalize : ∀ (ss : List Item) (w indent : Nat),
+    CST.normStmts (fmtStmtsCST w indent ss) = canonStmts ss
+  | [], _, _ => rfl
+  | (.mk _ e _) :: rest, w, indent => by
+    simp only [fmtStmtsCST, canonStmts, CST.normStmts, protC_normalize,
+      fmtCST_normalize e w (indent + INDENT_SIZE), fmtStmtsCST_normalize rest w indent]
 theorem fmtEntsCST_normalize : ∀ (es : List Entry) (w inner : Nat),
     (fmtEntsCST w inner es).map CST.normEnt = canonEntries es
   | [], _, _ => rfl
@@ -1212,8 +1260,12 @@ theorem fmtCST_layout : ∀ (t : Expr) (w indent : Nat), (fmtCST w indent t).Lay
     split
     · exact canonF_layout _
     · exact mkRecordML_layout (fmtEntsCST_layout es w (indent + INDENT_SIZE))
+  | .doBlock ss (.mk _ e _), w, indent => by
+    simp only [fmtCST]
+    exact ⟨⟨by simp, by simp, rfl⟩, fmtStmtsCST_layout ss w indent,
+      fmtCST_layout e w (indent + INDENT_SIZE)⟩
   | .inref _, _, _
-  | .doBlock _ _, _, _ | .assign _ _, _, _ | .output _, _, _ => trivial
+  | .assign _ _, _, _ | .output _, _, _ => trivial
 theorem fmtChainCST_layout : ∀ (t : Expr) (w indent : Nat) (x : CST),
     fmtChainCST w indent t = some x → x.LayoutOk
   | .cond c t e, w, indent, x, h => by
@@ -1249,6 +1301,12 @@ theorem fmtItemsCST_layout : ∀ (items : List Item) (w inner : Nat),
     rcases hq with rfl | hq
     · exact fmtCST_layout e w inner
     · exact fmtItemsCST_layout rest w inner q hq
+theorem fmtStmtsCST_layout : ∀ (ss : List Item) (w indent : Nat),
+    CST.StmtsLayoutOk (fmtStmtsCST w indent ss)
+  | [], _, _ => trivial
+  | (.mk _ e _) :: rest, w, indent =>
+    ⟨protC_layout (fmtCST_layout e w (indent + INDENT_SIZE)), by simp [Sep.ok, breakLay, LayAtom.isWs],
+      fmtStmtsCST_layout rest w indent⟩
 theorem fmtEntsCST_layout : ∀ (es : List Entry) (w inner : Nat),
     ∀ q ∈ fmtEntsCST w inner es, CST.EntLayoutOk q
   | [], _, _ => by intro q hq; cases hq
@@ -1405,14 +1463,14 @@ theorem chainCST_text (indent : Nat) (op : BinOp) (lP rP : List Piece) (bl br fi
       LayAtom.chars, List.append_assoc, List.cons_append, List.nil_append]
     rfl
 
-/-- the text of the three layouts of `format_lambda` (the body is not a do-block) -/
+/-- the text of the layouts of `format_lambda` (a do-block body always stays on the line of `=>`) -/
 theorem lamCST_text (w indent : Nat) (args : List LArg) (body : Expr)
-    (hnd : ∀ a b, body ≠ .doBlock a b) (b : List Piece) (bIn : Unit → List Piece) (B BIn : CST)
+    (b : List Piece) (bIn : Unit → List Piece) (B BIn : CST)
     (h1 : B.text = (render b).toList) (h2 : BIn.text = (render (bIn ())).toList) :
     (if lambdaBodyNeedsParens body then
         CST.lambda (headF args) [.sp] [.sp] (.paren [] B [])
-      else if (!hasNewline (lambdaArgsPart args ++ " =>" ++ " " ++ render b) &&
-          decide (indent + blen (lambdaArgsPart args ++ " =>" ++ " " ++ render b) ≤ w)) then
+      else if (isDoBlock body || (!hasNewline (lambdaArgsPart args ++ " =>" ++ " " ++ render b) &&
+          decide (indent + blen (lambdaArgsPart args ++ " =>" ++ " " ++ render b) ≤ w))) then
         CST.lambda (headF args) [.sp] [.sp] B
       else CST.lambda (headF args) [.sp] (breakLay indent) BIn).text =
       (render (lambdaLayout w indent args body b bIn)).toList := by
@@ -1423,18 +1481,20 @@ theorem lamCST_text (w indent : Nat) (args : List LArg) (body : Expr)
       List.nil_append]
     rfl
   · simp only [hp, Bool.false_eq_true, if_false]
-    by_cases hf : (!hasNewline (lambdaArgsPart args ++ " =>" ++ " " ++ render b) &&
-        decide (indent + blen (lambdaArgsPart args ++ " =>" ++ " " ++ render b) ≤ w)) = true
-    · cases body with
-      | doBlock a b' => exact (hnd a b' rfl).elim
-      | _ =>
-        simp only [hf, if_true, CST.text, headF_text, h1, render_text, String.toList_append,
+    cases body with
+    | doBlock a b' =>
+      simp only [isDoBlock, Bool.true_or, if_true, CST.text, headF_text, h1, render_text,
+        String.toList_append, layChars, LayAtom.chars, List.append_assoc, List.cons_append,
+        List.nil_append]
+      rfl
+    | _ =>
+      simp only [isDoBlock, Bool.false_or]
+      by_cases hf : (!hasNewline (lambdaArgsPart args ++ " =>" ++ " " ++ render b) &&
+          decide (indent + blen (lambdaArgsPart args ++ " =>" ++ " " ++ render b) ≤ w)) = true
+      · simp only [hf, if_true, CST.text, headF_text, h1, render_text, String.toList_append,
           layChars, LayAtom.chars, List.append_assoc, List.cons_append, List.nil_append]
         rfl
-    · cases body with
-      | doBlock a b' => exact (hnd a b' rfl).elim
-      | _ =>
-        simp only [hf, Bool.false_eq_true, if_false, CST.text, headF_text, h2, render_text,
+      · simp only [hf, Bool.false_eq_true, if_false, CST.text, headF_text, h2, render_text,
           String.toList_append, layChars_breakLay, makeIndent_toList, layChars, LayAtom.chars,
           List.append_assoc, List.cons_append, List.nil_append]
         rfl
@@ -1659,10 +1719,8 @@ theorem fmtCST_textB : ∀ (sp : Bool) (t : Expr) (w indent : Nat), fragB sp t =
     unfold fmtImpl at hb1 hb2 ⊢
     rw [fmtImplP_lambda]
     simp only [isSpread, spreadChars, Bool.false_eq_true, if_false, List.nil_append]
-    have hnd : ∀ a b, body ≠ .doBlock a b := by
-      intro a b e; subst e; simp [Frag, frag, fragB] at hb
     unfold fmtCST lamFits
-    exact lamCST_text w indent args body hnd _ _ _ _ hb1 hb2
+    exact lamCST_text w indent args body _ _ _ _ hb1 hb2
   | sp, .record es, w, indent, h => by
     have hh : Frag (.record es) := by simpa [Frag, frag, fragB] using h
     have ha := fmtEnts_text es w (indent + INDENT_SIZE) (frag_record hh)
@@ -1683,8 +1741,28 @@ theorem fmtCST_textB : ∀ (sp : Bool) (t : Expr) (w indent : Nat), fragB sp t =
           render_text, render_single, String.toList_append, ha, layChars_breakLay,
           makeIndent_toList, List.append_assoc, List.cons_append]
         rfl
+  | sp, .doBlock ss (.mk lead e tr), w, indent, h => by
+    simp only [fragB, fragRet, Bool.and_eq_true] at h
+    obtain ⟨hss, hp, he⟩ := h
+    obtain ⟨rfl, rfl⟩ := entPlain_eq hp
+    have hre := fmtCST_textB false e w (indent + INDENT_SIZE) he
+    simp only [isSpread_of_frag he, spreadChars, Bool.false_eq_true, if_false, List.nil_append] at hre
+    have hst := fmtStmts_text ss w indent hss
+    unfold fmtImpl at hre ⊢
+    rw [fmtImplP_doBlock]
+    simp only [isSpread, spreadChars, Bool.false_eq_true, if_false, List.nil_append, fmtCST,
+      CST.text, fmtRetP, leadP, render_text, render_append, render_single, String.toList_append,
+      hre, layChars_nlLay, makeIndent_toList, List.append_assoc]
+    have e1 : layChars (breakLay indent) ++ (CST.stmtsText (fmtStmtsCST w indent ss) ++ (retLit ++
+        (layChars [LayAtom.sp] ++ ((render (fmtImplP w (indent + INDENT_SIZE) e)).toList ++
+          ('\n' :: List.replicate indent ' ' ++ ['}']))))) =
+        (layChars (breakLay indent) ++ CST.stmtsText (fmtStmtsCST w indent ss)) ++ (retLit ++
+        (layChars [LayAtom.sp] ++ ((render (fmtImplP w (indent + INDENT_SIZE) e)).toList ++
+          ('\n' :: List.replicate indent ' ' ++ ['}'])))) := by
+      simp only [List.append_assoc]
+    rw [e1, hst]
+    simp [layChars, LayAtom.chars, layChars_breakLay, retLit, render_nil]
   | _, .inref _, _, _, h
-  | _, .doBlock _ _, _, _, h
   | _, .assign _ _, _, _, h | _, .output _, _, _, h => by simp [fragB] at h
 theorem fmtChain_text : ∀ (t : Expr) (w indent : Nat) (x : CST), Frag t →
     fmtChainCST w indent t = some x →
@@ -1748,6 +1826,32 @@ theorem fmtItems_text : ∀ (items : List Item) (w inner : Nat), fragItems items
       List.map_cons, argsML, argS, render_text, render_append, String.toList_append,
       makeIndent_toList, ha, hrr, List.append_assoc]
     rfl
+theorem fmtStmts_text : ∀ (ss : List Item) (w indent : Nat), fragStmts ss = true →
+    layChars (breakLay indent) ++ CST.stmtsText (fmtStmtsCST w indent ss) =
+      (render (fmtStmtsP w (indent + INDENT_SIZE) ss)).toList ++ layChars (breakLay indent)
+  | [], _, _, _ => by simp [fmtStmtsCST, CST.stmtsText, fmtStmtsP, render_nil]
+  | (.mk lead e tr) :: rest, w, indent, h => by
+    simp only [fragStmts, Bool.and_eq_true] at h
+    obtain ⟨⟨hp, he, hho⟩, hr⟩ := h
+    obtain ⟨rfl, rfl⟩ := entPlain_eq hp
+    have hte := fmtCST_textB false e w (indent + INDENT_SIZE) he
+    simp only [isSpread_of_frag he, spreadChars, Bool.false_eq_true, if_false, List.nil_append] at hte
+    have hfr : Frag e := he
+    obtain ⟨hwf, _, _⟩ := relayout_wf hfr (fmtCST_relayout e hfr w (indent + INDENT_SIZE))
+    have hP := protC_text (fmtCST w (indent + INDENT_SIZE) e) hwf.1 hwf.2 (fun hm => by
+      apply CST.headOk_of_normalize
+      rw [fmtCST_normalize]
+      refine headOk_canon e he hho ?_
+      rw [← fmtCST_normalize e w (indent + INDENT_SIZE), CST.startsMinus_normalize]
+      exact hm)
+    rw [hte, String.ofList_toList] at hP
+    have ih := fmtStmts_text rest w indent hr
+    simp only [fmtStmtsCST, CST.stmtsText, Sep.text, fmtStmtsP, fmtStmtP, leadP, trailP,
+      List.nil_append, List.append_nil, render_text, render_append, render_protectP,
+      String.toList_append, makeIndent_toList, hP, List.append_assoc]
+    unfold fmtImpl
+    rw [ih]
+    simp [layChars_breakLay, List.append_assoc]
 theorem fmtEnts_text : ∀ (es : List Entry) (w inner : Nat), fragEntries es = true →
     (render (fmtEntriesP w inner es)).toList =
       argsML ('\n' :: List.replicate inner ' ') ((fmtEntsCST w inner es).map CST.entText)
@@ -1829,6 +1933,17 @@ theorem fmtImpl_eq_text (t : Expr) (h : Frag t) (w indent : Nat) :
 
 /-! ### the two shapes of the output, as strings -/
 
+/-- a do-block never "fits on one line": its single-line text has line breaks -/
+theorem fits_doBlock (w indent : Nat) (ss : List Item) (r : Item) :
+    fits w indent (.doBlock ss r) = false := by
+  have : hasNewline (fmtSingle (.doBlock ss r)) = true := by
+    simp only [fmtSingle]
+    split
+    · decide
+    · obtain ⟨lead, e, tr⟩ := r
+      simp [exprToSource, exprSrc, retSrc, hasNewline, String.toList_append]
+  simp [fits, this]
+
 /-- where the single-line form fits, the formatter's text is `format_single_line` (for
     everything but a lambda at the top, which `format_expr_impl` lays out by `format_lambda`) -/
 theorem fmtImpl_fits (t : Expr) (h : Frag t) (w indent : Nat) (hf : fits w indent t = true)
@@ -1837,6 +1952,7 @@ theorem fmtImpl_fits (t : Expr) (h : Frag t) (w indent : Nat) (hf : fits w inden
   cases t <;> first
     | (simp [Frag, frag, fragB] at h; done)
     | (simp [isLambda] at hl; done)
+    | (rw [fits_doBlock] at hf; cases hf)
     | (unfold fmtCST; rw [if_pos hf])
     | (unfold fmtCST canonF; rfl)
 
